@@ -555,7 +555,10 @@ class C12(Monitor):
         # limit (4300): to_json_data must refuse it the same way every time
         huge = [{"k": "src", "s": "HP", "src": "v = 0x1" + "0" * 4000 + "\nw = 2**70\n", "mode": "exec", "opt": 0}]
         # (first in the list: it has to be seen by a process that has done nothing else)
-        return huge + spaces.spread(out, n) + list(spaces.prog_Q()) + list(spaces.prog_P1())
+        # names that JSON cannot carry as plain strings (lone surrogate), in the list-valued
+        # fields of the document (parameters, free variables) and in the name tables
+        odd = [{"k": "strpos", "s": "HP", "pos": pos} for pos in ("param", "free", "cell", "local", "name")]
+        return huge + spaces.spread(out, n) + list(spaces.prog_Q()) + list(spaces.prog_P1()) + odd
 
     def cases(self):
         for c in self.programs():
@@ -566,11 +569,16 @@ class C12(Monitor):
 
     def check(self, case, stats):
         try:
-            root = spaces.build_code(case)
+            if case.get("k") == "strpos":
+                import mon_json
+
+                root = mon_json.code_with_string("\ud800y", case["pos"])
+            else:
+                root = spaces.build_code(case)
         except (SyntaxError, ValueError):
             stats.skipped["not-compilable"] += 1
             return
-        stats.sample("HP", {"program": case["src"], "calls": CALLS, "max_sequence_length": self.depth()}, per=2)
+        stats.sample("HP", {"program": case.get("src", case), "calls": CALLS, "max_sequence_length": self.depth()}, per=2)
         for path, code in walk_codes(root):
             key = digest64(code_key(code))
             if key in self.seen:
@@ -579,7 +587,12 @@ class C12(Monitor):
             self.histories(dict(case, cpath=list(path)), code, stats)
 
     def replay(self, case, stats):
-        root = spaces.build_code(case)
+        if case.get("k") == "strpos":
+            import mon_json
+
+            root = mon_json.code_with_string("\ud800y", case["pos"])
+        else:
+            root = spaces.build_code(case)
         code = root
         for i in case.get("cpath", []):
             code = code.co_consts[i]
